@@ -42,6 +42,11 @@ class CompileMapper(StringifyMapper):
                 expr = float(expr)
             elif isinstance(expr, numpy.complexfloating):
                 expr = complex(expr)
+            elif isinstance(expr, numpy.bool_):
+                expr = bool(expr)
+            elif isinstance(expr, numpy.integer):
+                # (numpy 2 writes these as 'np.int64(3)')
+                expr = int(expr)
 
         result = repr(expr)
 
